@@ -4,7 +4,7 @@
    table come from Gen/Types.v, Gen/CodecFacts.v. *)
 From Coq Require Import String.
 From PV Require Import Base.Bytes Base.Res Base.Proto Gen.Types Model.Codec Spec.WireFloat Spec.Wire.
-From PV Require Import Proofs.CodecWireDefs Proofs.CodecWireEnc Proofs.CodecWireDec Proofs.CodecWireCodes.
+From PV Require Import Proofs.CodecWireDefs Proofs.CodecWireEnc Proofs.CodecWireDec Proofs.CodecWireCodes Proofs.CodecWireFloat.
 Open Scope Z_scope.
 
 (* Full strength.  For every type the reference defines ([wire_ty]: elementary types, strings,
@@ -34,6 +34,9 @@ Proof.
   vm_compute in Hd. discriminate Hd.
 Qed.
 Print Assumptions C07_full_refuted.
+
+(* an empty output line, so that the axiom lists printed above are read as separate blocks *)
+Goal True. Proof. idtac "". exact I. Qed.
 
 (* One witness per deviation class (what the real implementation does on each: known_findings/C07.jsonl). *)
 Definition ty_named (s : string) : ty := match ty_of_name (zs_of_string s) with Some t => t | None => TBool end.
@@ -104,11 +107,14 @@ Definition is_trunc (r : sres) : bool := match r with STrunc => true | _ => fals
 Definition C07_guard_dec (t : ty) (bs : bytes) : bool := negb (dec_ty t) || is_trunc (spec_decode t bs).
 Definition C07_guard_code (r : code_row) : bool := is_date_and_time r.
 
-(* REAL: the model rounds / widens with integer arithmetic on the bit fields; the reference is
-   Flocq's binary_normalize.  Their agreement: *)
+(* REAL: the model rounds / widens with integer arithmetic on the bit fields (Model/CodecFloat.v); the
+   reference is Flocq's binary_normalize (Spec/WireFloat.v).  They agree on every bit pattern
+   (Proofs/CodecWireFloat.v). *)
 Definition float_agreement : Prop :=
   (forall b, sp_f64_ok b = true -> round32 b = spec_real32_of_64 b)
   /\ (forall u, 0 <= u < 2 ^ 32 -> widen32 u = spec_real64_of_32 u).
+Theorem C07_float_agreement : float_agreement.
+Proof. split; [exact round32_is_flocq|exact widen32_is_flocq]. Qed.
 
 Definition C07_guarded_stmt : Prop :=
   (forall t v bs, wire_ty t = true -> C07_guard_enc t v = false -> spec_encode t v = Some bs -> encode t v = Ok bs)
@@ -122,9 +128,9 @@ Definition C07_guarded_stmt : Prop :=
   /\ (forall r, In r all_codes -> C07_guard_code r = false -> code_ok r = true)
   /\ (forall a b bs, spec_encode TDateTime (VTuple [VInt a; VInt b]) = Some bs -> encode_args TDateTime [VInt a; VInt b] = Ok bs).
 
-Theorem C07_guarded_partial : float_agreement -> C07_guarded_stmt.
+Theorem C07_guarded : C07_guarded_stmt.
 Proof.
-  intros [Hr Hwd]. split; [|split; [|split]].
+  destruct C07_float_agreement as [Hr Hwd]. split; [|split; [|split]].
   - intros t v bs Hw Hg Hs. unfold C07_guard_enc in Hg. apply Bool.negb_false_iff in Hg. apply Z.eqb_eq in Hg.
     exact (encode_is_spec_gen Hr t v bs Hw Hs Hg).
   - intros t bs Hw Hok Hg. unfold C07_guard_dec in Hg. apply Bool.orb_false_elim in Hg as [Hd Ht].
@@ -134,20 +140,58 @@ Proof.
     unfold C07_guard_code in Hg. rewrite Hg in H. exact H.
   - exact datetime_args_is_spec.
 Qed.
-Print Assumptions C07_guarded_partial.
+Print Assumptions C07_guarded.
+
+(* an empty output line, so that the axiom lists printed above are read as separate blocks *)
+Goal True. Proof. idtac "". exact I. Qed.
+
+(* The three laws, one by one (the names of DESIGN.md section 7). *)
+Theorem encode_is_spec :
+  forall t v bs, wire_ty t = true -> C07_guard_enc t v = false -> spec_encode t v = Some bs -> encode t v = Ok bs.
+Proof. exact (proj1 C07_guarded). Qed.
+Print Assumptions encode_is_spec.
+
+(* an empty output line, so that the axiom lists printed above are read as separate blocks *)
+Goal True. Proof. idtac "". exact I. Qed.
+
+Theorem decode_is_spec :
+  forall t bs, wire_ty t = true -> bytes_ok bs = true -> C07_guard_dec t bs = false ->
+  match spec_decode t bs with
+  | SOk v rest => decode t bs = Ok (v, rest)
+  | SBad => decode t bs = Err DataError
+  | SEnd => decode t bs = Err BufferEmpty
+  | STrunc => False
+  end.
+Proof. exact (proj1 (proj2 C07_guarded)). Qed.
+Print Assumptions decode_is_spec.
+
+(* an empty output line, so that the axiom lists printed above are read as separate blocks *)
+Goal True. Proof. idtac "". exact I. Qed.
+
+Theorem type_codes : forall r, In r all_codes -> C07_guard_code r = false -> code_ok r = true.
+Proof.
+  intros r Hin Hg. pose proof type_codes_guarded as H. rewrite forallb_forall in H. specialize (H r Hin).
+  unfold C07_guard_code in Hg. rewrite Hg in H. exact H.
+Qed.
+Print Assumptions type_codes.
+
+(* an empty output line, so that the axiom lists printed above are read as separate blocks *)
+Goal True. Proof. idtac "". exact I. Qed.
 
 (* StructTag layout, spelled out: [size] bytes; byte j = the visible member covering j (0 in the
    padding) with the BOOL members of that byte set / cleared *)
 Theorem C07_structtag_layout :
-  float_agreement ->
   forall ms bits priv size d ps bv,
   wire_ty (TStructTag ms bits priv size) = true ->
   stag_pieces (senc_sms ms) priv d = Some ps -> stag_bitvals bits d = Some bv ->
   enc_dev (TStructTag ms bits priv size) (VDict d) = 0 ->
   exists image, encode (TStructTag ms bits priv size) (VDict d) = Ok image /\ length image = size
                 /\ forall j, (j < size)%nat -> nth j image 0 = bits_byte bv j (piece_byte ps j).
-Proof. intros [Hr _]. exact (structtag_layout_gen Hr). Qed.
+Proof. exact (structtag_layout_gen round32_is_flocq). Qed.
 Print Assumptions C07_structtag_layout.
+
+(* an empty output line, so that the axiom lists printed above are read as separate blocks *)
+Goal True. Proof. idtac "". exact I. Qed.
 
 (* non-vacuity: a structure of the kinds the property names (integers, REAL, strings, a fixed-capacity
    string, a bit string, an array) and a template with padding, a hidden host and bit members, one of
